@@ -19,7 +19,7 @@ import unittest
 from mc.engine import Check, Res
 
 TOKENS = ['-1', '--tagged', '-0', '--istagged', '-v', '-q', '-f', '-W',
-          '-1v', '-v1', '-k test_a', '-ktest_y']
+          '-1v', '-v1', '-k test_a', '-ktest_y', '-kk']
 #            token -> (tagged, list, regen, unittest residue)
 TOKSEM = {
     '-1': (1, 0, 0, None), '--tagged': (1, 0, 0, None),
@@ -30,6 +30,8 @@ TOKSEM = {
     # unittest's -k PATTERN (separate and attached value): an ordinary
     # unittest option that takes a value
     '-k test_a': (0, 0, 0, '-k test_a'), '-ktest_y': (0, 0, 0, '-ktest_y'),
+    # an attached value that itself ends in the option letter (matches no test)
+    '-kk': (0, 0, 0, '-kk'),
 }
 MODNAME = 'mc_synth_mod'
 
